@@ -540,13 +540,14 @@ struct DurMon {
       ctx.viol("C18", std::string("lookup-not-floor:") + nm, std::string(nm) + " count=" + S((i128)c) + " zone=" + zn);
     if (!(cctz::convert(tp, tz) == ref.cs)) ctx.viol("C18", std::string("convert-not-floor:") + nm, std::string(nm) + " count=" + S((i128)c));
     i128 femto = rem * (i128)1000000000000000LL / den;  // truncated
-    std::string s = cctz::format("%s %E15f %E3f %E*S|%E0S|%S", tp, tz);
+    std::string s = cctz::format("%s %E15f %E3f %E*S|%E0S|%S|%E18f|%E16S|%E1f|%E*f", tp, tz);
     ctx.stat("C18.evaluations");
     std::string f15 = fm::dec(femto, 15), f3 = fm::dec(femto / fm::p10(12), 3);
     std::string frac = f15;
     while (!frac.empty() && frac.back() == '0') frac.pop_back();
     std::string s2 = fm::d2(ref.cs.second());
-    std::string exp = fm::dec(secs) + " " + f15 + " " + f3 + " " + s2 + (frac.empty() ? "" : "." + frac) + "|" + s2 + "|" + s2;
+    std::string exp = fm::dec(secs) + " " + f15 + " " + f3 + " " + s2 + (frac.empty() ? "" : "." + frac) + "|" + s2 + "|" + s2 + "|" + f15 + "000|" + s2 + "." + f15 +
+                      "0|" + fm::dec(femto / fm::p10(14), 1) + "|" + (frac.empty() ? "0" : frac);
     if (s != exp) ctx.viol("C18", std::string("format-fraction:") + nm, std::string(nm) + " count=" + S((i128)c) + " got '" + s + "' expected '" + exp + "'");
     // parse back into D from the full-precision text
     if (den > 1) {
